@@ -317,8 +317,32 @@ def new_defaulted_params(model: Model, fn: FunctionInfo) -> dict:
         for p in cands:
             if p.name not in passed and "**" not in passed and (n_calls or not brand_new):
                 out[p.name] = p.default.value
+    # a NEW catch-all `*args` (a shim that keeps deprecated positional flags working) that no call in the package
+    # fills is the empty tuple: the documented calls bind every value to a named parameter
+    va = next((p for p in fn.params if p.kind == "vararg" and p.name not in sig), None)
+    if va is not None and not brand_new:
+        n_named = len([p for p in fn.params if p.kind == "pos"]) - (1 if fn.cls is not None and not fn.is_staticmethod else 0)
+        filled = False
+        for g in model.functions.values():
+            for n in ast.walk(g.node):
+                if isinstance(n, ast.Call):
+                    f = n.func
+                    cname = f.id if isinstance(f, ast.Name) else f.attr if isinstance(f, ast.Attribute) else None
+                    if cname == fn.name and (len(n.args) > n_named or any(isinstance(a, ast.Starred) for a in n.args)):
+                        filled = True
+        if not filled:
+            out[va.name] = _EMPTY_VARARGS
+            memo[fn.qualname] = out
     memo[fn.qualname] = out
     return out
+
+
+class _EmptyVarargs:
+    def __repr__(self) -> str:
+        return "()"
+
+
+_EMPTY_VARARGS = _EmptyVarargs()
 
 
 class Summariser:
@@ -869,13 +893,14 @@ class _Builder:
             while outer is not None:
                 for name, val in new_defaulted_params(self.model, outer).items():
                     if name not in own and name not in env and not any(isinstance(n_, ast.Name) and n_.id == name and isinstance(n_.ctx, ast.Store) for n_ in ast.walk(outer.node)):
-                        env[name] = ("const", val)
+                        env[name] = ("tuple", ()) if val is _EMPTY_VARARGS else ("const", val)
                 outer = outer.parent
             for name, val in new_defaulted_params(self.model, self.fn).items():
-                env[name] = ("const", val)
+                env[name] = ("tuple", ()) if val is _EMPTY_VARARGS else ("const", val)
         for name, val in self.bind.items():
             if name in env:
-                env[name] = ("const", val)
+                # a literal value, or (for analyses that run a function on symbolic arguments) a ready-made term
+                env[name] = val if (isinstance(val, tuple) and val and isinstance(val[0], str) and val[0] in ("tuple", "sym", "param", "const")) else ("const", val)
         start = Path([], env, None)
         body = list(self.fn.node.body)
         if body and isinstance(body[0], ast.Expr) and isinstance(body[0].value, ast.Constant) and isinstance(body[0].value.value, str):
